@@ -493,6 +493,20 @@ def _signal_roots(an: Analysis, fn, node, depth: int = 3):
 
 def _assigned_to(fn, call):
     for node in ast.walk(fn.node):
+        if isinstance(node, ast.Call) and node is not call and isinstance(
+                node.func, (ast.Attribute, ast.Name)):
+            # made in the argument list of a private helper (`self._deliver(Signal(...))`):
+            # the helper, which rule paths run in place, keeps it in its parameter
+            name = node.func.attr if isinstance(node.func, ast.Attribute) else node.func.id
+            receiver = ast.unparse(node.func.value) if isinstance(
+                node.func, ast.Attribute) else 'self'
+            if name.startswith('_') and not name.startswith('__') and receiver == 'self':
+                for pos, arg in enumerate(node.args):
+                    if arg is call:
+                        return 'local', 'argument %d of %s' % (pos, name)
+                for kw in node.keywords:
+                    if kw.value is call and kw.arg:
+                        return 'local', kw.arg
         if isinstance(node, ast.Assign) and node.value is call:
             target = node.targets[0]
             if isinstance(target, ast.Name):
